@@ -396,6 +396,7 @@ func (s *Syncer) addPeer(p *Peer) error {
 
 	s.mu.Lock()
 	s.peers[p.t.Addr] = p
+	verifEvent("s.addpeer", s.verifID(), s.verifPeers(p.Inbound))
 	s.mu.Unlock()
 	return nil
 }
@@ -425,20 +426,24 @@ func (s *Syncer) subnetKey(connAddr string) string {
 // obtain a fresh allowance by disconnecting and reconnecting.
 func (s *Syncer) acquireInflight(key string) bool {
 	if key == "" || s.config.MaxInflightRPCsPerSubnet <= 0 {
+		verifEvent("s.sub.off", s.verifSub(key), 0)
 		return true
 	}
 	s.inflightMu.Lock()
 	defer s.inflightMu.Unlock()
 	if s.inflightSubnet[key] >= s.config.MaxInflightRPCsPerSubnet {
+		verifEvent("s.sub.rej", s.verifSub(key), s.inflightSubnet[key])
 		return false
 	}
 	s.inflightSubnet[key]++
+	verifEvent("s.sub.acq", s.verifSub(key), s.inflightSubnet[key])
 	return true
 }
 
 // releaseInflight releases a slot previously reserved by acquireInflight.
 func (s *Syncer) releaseInflight(key string) {
 	if key == "" || s.config.MaxInflightRPCsPerSubnet <= 0 {
+		verifEvent("s.sub.reloff", s.verifSub(key), 0)
 		return
 	}
 	s.inflightMu.Lock()
@@ -446,12 +451,14 @@ func (s *Syncer) releaseInflight(key string) {
 	if s.inflightSubnet[key]--; s.inflightSubnet[key] <= 0 {
 		delete(s.inflightSubnet, key)
 	}
+	verifEvent("s.sub.rel", s.verifSub(key), s.inflightSubnet[key])
 }
 
 func (s *Syncer) runPeer(p *Peer) {
 	defer func() {
 		s.mu.Lock()
 		delete(s.peers, p.t.Addr)
+		verifEvent("s.rmpeer", s.verifID(), s.verifPeers(p.Inbound))
 		s.mu.Unlock()
 
 		// notify goroutines of removed peer
@@ -463,6 +470,7 @@ func (s *Syncer) runPeer(p *Peer) {
 		return
 	}
 	defer done()
+	verifEvent("s.peer.run", s.verifID(), p.verifID())
 
 	subnet := s.subnetKey(p.ConnAddr)
 	inflight := make(chan struct{}, s.config.MaxInflightRPCs)
@@ -475,14 +483,18 @@ func (s *Syncer) runPeer(p *Peer) {
 			p.setErr(err)
 			return
 		}
+		verifEvent("s.slot.want", p.verifID(), 0)
 		select {
 		case inflight <- struct{}{}:
+			verifEvent("s.slot.take", p.verifID(), len(inflight))
 		case <-s.tg.Done():
+			verifEvent("s.slot.closed", p.verifID(), 0)
 			return
 		}
 		// enforce the per-subnet in-flight cap; the slot is held until the
 		// handler completes, so reconnecting does not grant a fresh allowance.
 		if !s.acquireInflight(subnet) {
+			verifEvent("s.slot.ret", p.verifID(), 0)
 			<-inflight
 			stream.Close()
 			s.log.Debug("rejected rpc: subnet in-flight limit reached", zap.Stringer("peer", p), zap.Stringer("rpc", id), zap.String("subnet", subnet), zap.Int("limit", s.config.MaxInflightRPCsPerSubnet))
@@ -490,7 +502,9 @@ func (s *Syncer) runPeer(p *Peer) {
 		}
 
 		go func() {
+			verifEvent("s.h.start", p.verifID(), 0)
 			defer func() { <-inflight }()
+			defer verifEvent("s.slot.ret", p.verifID(), 1)
 			defer s.releaseInflight(subnet)
 
 			done, err := s.tg.Add()
@@ -601,10 +615,13 @@ func (s *Syncer) allowConnect(ctx context.Context, peer string, inbound bool) er
 	}
 	// TODO: subnet-based limits
 	if inbound && in >= s.config.MaxInboundPeers {
+		verifEvent("s.allow.rej", s.verifID(), verifDir(in, true))
 		return errors.New("too many inbound peers")
 	} else if !inbound && out >= s.config.MaxOutboundPeers {
+		verifEvent("s.allow.rej", s.verifID(), verifDir(out, false))
 		return errors.New("too many outbound peers")
 	}
+	verifEvent("s.allow.ok", s.verifID(), s.verifPeers(inbound))
 	return nil
 }
 
